@@ -85,6 +85,10 @@ def check_case(ref, s):
             bad("malformed-search-returns-results", sorted(gs)[:6], "SpilException or []")
         return out, cls
     extra, missing = gs - alw, req - gs
+    for grp in list(rs.GROUPS):
+        if not (grp & gs) and not missing:
+            bad("filter-fits-several-types-but-the-search-was-dropped/" + shape(s), sorted(gs)[:4], sorted(grp)[:4])
+            break
     if extra:
         bad(_classify_extra(ref, rs, s, extra), sorted(extra)[:6], sorted(alw)[:6])
     if missing:
